@@ -495,7 +495,7 @@ prop(
 for arm in ("hex_arm_2", "hex_arm_3", "zero_arm_2", "zero_arm_3", "dec_arm_2", "dec_arm_3", "dir_arm_2", "dir_arm_3", "str_arm_2", "str_arm_3",
             "reg_arm_2", "reg_arm_3", "ident_arm_2", "ident_arm_3", "comment_arm_3", "ws_arm_3", "unknown_arm_2", "unknown_arm_3"):
     H("C05", f"lexer::verif_h::c05_lex_{arm}", LEX, tier=("quick" if arm in ("hex_arm_2", "hex_arm_3", "dec_arm_2", "str_arm_2", "unknown_arm_2", "reg_arm_2") else "thorough"),
-      covers=0, stubs=[FMT, KW], timeout=3000, mem_gb=24,
+      covers=1, stubs=[FMT, KW], timeout=3000, mem_gb=24,
       functions=["Cursor::advance_token", "Cursor::hex", "Cursor::dec", "Cursor::str", "Cursor::dir", "Cursor::ident", "Cursor::take_while", "Cursor::get_range", "error::lex_*"],
       what=f"lexer arm {arm}: the arm's first character + every valid-UTF-8 continuation making a text of exactly that many bytes: no panic, spans inside the source",
       bounds="text of exactly 2 / 3 bytes; first token")
